@@ -97,7 +97,7 @@ def run_shard(sh):
         for i in range(sh['n']):
             if budget.expired():
                 break
-            r = S.random_walk(cfg, [StatMonitor], alpha, rng, sh['length'], multi=False, rest=REST, weights=weights)
+            r = S.random_walk(cfg, [StatMonitor], alpha, rng, sh['length'], multi=False, rest=REST, weights=weights, lazy=0.3 if i % 2 else 0.0)
             note(r)
             res['evaluations'] += 1
             res['distinct'].append('walk|%d|%d' % (sh['seed'], i))
